@@ -61,6 +61,14 @@ class Ctx:
             self._effects.solve()
         return self._effects
 
+    @property
+    def transl(self):
+        if self.cache.get("transl") is None:
+            from .transl import Transl
+
+            self.cache["transl"] = Transl(self)
+        return self.cache["transl"]
+
     @staticmethod
     def require(res: Result, rule: str, got: int, expected_min: int, what: str):
         """Anti-vacuity: fewer instances than confirmed by hand => analysis error."""
